@@ -35,6 +35,96 @@ theorem searchGE_le_length (x : K) (a : List K) : searchGE x a ≤ a.length := b
   | nil => simp [searchGE]
   | cons y ys ih => simp only [searchGE]; split <;> simp <;> omega
 
+/-- First step of the lookup, inside the first segment: no hypothesis on the lengths. -/
+theorem evalFrom_cons_in (sqrt : K → K) (s s' : Seg K) (rest' : List (Seg K)) (acc l : K)
+    (hin : l - acc < segLen sqrt s) :
+    evalFrom sqrt acc (s :: s' :: rest') l = segPoint sqrt s (l - acc) := by
+  set L := segLen sqrt s with hLdef
+  set starts' := (cumulative (acc + L) ((s' :: rest').map (segLen sqrt))).1 with hst
+  have hhead : starts'.getD 0 ((0 : Nat) : K) = acc + L := by
+    rw [hst]; simp [cumulative_cons]
+  have hstarts : (cumulative acc ((s :: s' :: rest').map (segLen sqrt))).1 = acc :: starts' := by
+    rw [List.map_cons, cumulative_cons]
+  simp only [evalFrom, hstarts]
+  have hlt : ¬ (acc + L < l) := by linarith
+  have h0 : searchGE l starts' = 0 := by
+    rw [hst, List.map_cons, cumulative_cons, searchGE, if_neg hlt]
+  by_cases h : acc < l
+  · simp only [searchGE, if_pos h, h0, List.length_cons]
+    have hc : (0 + 1 = rest'.length + 1 + 1 ∨ 0 < 0 + 1 ∧ l < (acc :: starts').getD (0 + 1) ((0 : Nat) : K)) := by
+      right
+      refine ⟨by omega, ?_⟩
+      rw [List.getD_cons_succ, hhead]; linarith
+    rw [if_pos hc]
+    simp
+  · simp only [searchGE, if_neg h, List.length_cons]
+    simp
+
+/-- First step of the lookup, past the first segment (and strictly past its start): the lookup in the
+whole table is the lookup in the table of the remaining segments.  No hypothesis on the lengths. -/
+theorem evalFrom_cons_step (sqrt : K → K) (s s' : Seg K) (rest' : List (Seg K)) (acc l : K)
+    (h : acc < l) (hge : acc + segLen sqrt s ≤ l) :
+    evalFrom sqrt acc (s :: s' :: rest') l = evalFrom sqrt (acc + segLen sqrt s) (s' :: rest') l := by
+  set L := segLen sqrt s with hLdef
+  set starts' := (cumulative (acc + L) ((s' :: rest').map (segLen sqrt))).1 with hst
+  have hlen' : starts'.length = rest'.length + 1 := by
+    rw [hst, cumulative_length]; simp
+  have hhead : starts'.getD 0 ((0 : Nat) : K) = acc + L := by
+    rw [hst]; simp [cumulative_cons]
+  have hstarts : (cumulative acc ((s :: s' :: rest').map (segLen sqrt))).1 = acc :: starts' := by
+    rw [List.map_cons, cumulative_cons]
+  simp only [evalFrom, hstarts]
+  rw [← hst]
+  simp only [searchGE, if_pos h, List.length_cons]
+  set j := searchGE l starts' with hj
+  have hjle : j ≤ starts'.length := searchGE_le_length l starts'
+  by_cases hjn : j = rest'.length + 1
+  · -- the search ran off the end: the last segment
+    have c1 : (j + 1 = rest'.length + 1 + 1 ∨ 0 < j + 1 ∧ l < (acc :: starts').getD (j + 1) ((0 : Nat) : K)) :=
+      Or.inl (by omega)
+    have c2 : (j = rest'.length + 1 ∨ 0 < j ∧ l < starts'.getD j ((0 : Nat) : K)) := Or.inl hjn
+    rw [if_pos c1, if_pos c2]
+    have : j + 1 - 1 = (j - 1) + 1 := by omega
+    rw [this, List.getD_cons_succ, List.getD_cons_succ]
+  · by_cases hlj : l < starts'.getD j ((0 : Nat) : K)
+    · have hj0 : 0 < j := by
+        rcases Nat.eq_zero_or_pos j with h0 | h0
+        · rw [h0, hhead] at hlj; linarith
+        · exact h0
+      have c1 : (j + 1 = rest'.length + 1 + 1 ∨ 0 < j + 1 ∧ l < (acc :: starts').getD (j + 1) ((0 : Nat) : K)) :=
+        Or.inr ⟨by omega, by rw [List.getD_cons_succ]; exact hlj⟩
+      have c2 : (j = rest'.length + 1 ∨ 0 < j ∧ l < starts'.getD j ((0 : Nat) : K)) := Or.inr ⟨hj0, hlj⟩
+      rw [if_pos c1, if_pos c2]
+      have : j + 1 - 1 = (j - 1) + 1 := by omega
+      rw [this, List.getD_cons_succ, List.getD_cons_succ]
+    · have c1 : ¬ (j + 1 = rest'.length + 1 + 1 ∨ 0 < j + 1 ∧ l < (acc :: starts').getD (j + 1) ((0 : Nat) : K)) := by
+        rintro (h1 | ⟨_, h2⟩)
+        · omega
+        · rw [List.getD_cons_succ] at h2; exact hlj h2
+      have c2 : ¬ (j = rest'.length + 1 ∨ 0 < j ∧ l < starts'.getD j ((0 : Nat) : K)) := by
+        rintro (h1 | ⟨_, h2⟩)
+        · exact hjn h1
+        · exact hlj h2
+      rw [if_neg c1, if_neg c2, List.getD_cons_succ, List.getD_cons_succ]
+
+/-- At or before the start of the table the first segment is selected. -/
+theorem evalFrom_at_start (sqrt : K → K) (s : Seg K) (rest : List (Seg K)) (acc l : K) (h : ¬ acc < l) :
+    evalFrom sqrt acc (s :: rest) l = segPoint sqrt s (l - acc) := by
+  simp only [evalFrom, List.map_cons, cumulative_cons, searchGE, if_neg h, List.length_cons]
+  simp
+
+theorem evalFrom_single (sqrt : K → K) (s : Seg K) (acc l : K) :
+    evalFrom sqrt acc [s] l = segPoint sqrt s (l - acc) := by
+  simp only [evalFrom, List.map_cons, List.map_nil, cumulative, searchGE, List.length_cons,
+    List.length_nil]
+  by_cases h : acc < l
+  · simp [h]
+  · simp [h]
+
+theorem walk_cons_cons (sqrt : K → K) (s s' : Seg K) (rest' : List (Seg K)) (l : K) :
+    walk sqrt (s :: s' :: rest') l =
+      if l < segLen sqrt s then segPoint sqrt s l else walk sqrt (s' :: rest') (l - segLen sqrt s) := rfl
+
 theorem evalFrom_eq_walk (sqrt : K → K) (segs : List (Seg K)) (hne : segs ≠ [])
     (hpos : ∀ s ∈ segs, 0 < segLen sqrt s) (acc l : K) :
     evalFrom sqrt acc segs l = walk sqrt segs (l - acc) := by
@@ -42,78 +132,178 @@ theorem evalFrom_eq_walk (sqrt : K → K) (segs : List (Seg K)) (hne : segs ≠ 
   | nil => exact absurd rfl hne
   | cons s rest ih =>
     cases rest with
-    | nil =>
-      simp only [evalFrom, List.map_cons, List.map_nil, cumulative, searchGE, walk, List.length_cons,
-        List.length_nil]
-      by_cases h : acc < l
-      · simp [h]
-      · simp [h]
+    | nil => rw [evalFrom_single]; rfl
     | cons s' rest' =>
       have hL : 0 < segLen sqrt s := hpos s (by simp)
       have ih' := ih (by simp) (fun x hx => hpos x (List.mem_cons_of_mem _ hx)) (acc + segLen sqrt s)
-      set L := segLen sqrt s with hLdef
-      set starts' := (cumulative (acc + L) ((s' :: rest').map (segLen sqrt))).1 with hst
-      have hlen' : starts'.length = rest'.length + 1 := by
-        rw [hst, cumulative_length]; simp
-      have hhead : starts'.getD 0 ((0 : Nat) : K) = acc + L := by
-        rw [hst]; simp [cumulative_cons]
-      have hstarts : (cumulative acc ((s :: s' :: rest').map (segLen sqrt))).1 = acc :: starts' := by
-        rw [List.map_cons, cumulative_cons]
-      rw [show walk sqrt (s :: s' :: rest') (l - acc) =
-          if l - acc < L then segPoint sqrt s (l - acc) else walk sqrt (s' :: rest') (l - acc - L) from rfl]
-      simp only [evalFrom, hstarts]
-      by_cases hin : l - acc < L
-      · rw [if_pos hin]
-        have hlt : ¬ (acc + L < l) := by linarith
-        have h0 : searchGE l starts' = 0 := by
-          rw [hst, List.map_cons, cumulative_cons, searchGE, if_neg hlt]
-        by_cases h : acc < l
-        · simp only [searchGE, if_pos h, h0, List.length_cons]
-          have hc : (0 + 1 = rest'.length + 1 + 1 ∨ 0 < 0 + 1 ∧ l < (acc :: starts').getD (0 + 1) ((0 : Nat) : K)) := by
-            right
-            refine ⟨by omega, ?_⟩
-            rw [List.getD_cons_succ, hhead]; linarith
-          rw [if_pos hc]
-          simp
-        · simp only [searchGE, if_neg h, List.length_cons]
-          simp
+      rw [walk_cons_cons]
+      by_cases hin : l - acc < segLen sqrt s
+      · rw [if_pos hin, evalFrom_cons_in sqrt s s' rest' acc l hin]
+      · rw [if_neg hin, evalFrom_cons_step sqrt s s' rest' acc l (by linarith) (by linarith), ih']
+        congr 1; ring
+
+/-! ### polylines with repeated vertices (segments of length zero) -/
+
+/-- What the theorems need of `math.Sqrt`: non-negative, and a square root, on non-negative arguments. -/
+def SqrtOK (sqrt : K → K) : Prop := ∀ x, 0 ≤ x → 0 ≤ sqrt x ∧ sqrt x * sqrt x = x
+
+theorem segLen_nonneg (sqrt : K → K) (hs : SqrtOK sqrt) (s : Seg K) : 0 ≤ segLen sqrt s := by
+  exact (hs _ (add_nonneg (mul_self_nonneg _) (mul_self_nonneg _))).1
+
+/-- A segment of length zero is a point. -/
+theorem segLen_eq_zero (sqrt : K → K) (hs : SqrtOK sqrt) (s : Seg K) (h : segLen sqrt s = 0) :
+    s.bx = s.ax ∧ s.by' = s.ay := by
+  have h2 := (hs ((s.bx - s.ax) * (s.bx - s.ax) + (s.by' - s.ay) * (s.by' - s.ay))
+    (add_nonneg (mul_self_nonneg _) (mul_self_nonneg _))).2
+  have h' : sqrt ((s.bx - s.ax) * (s.bx - s.ax) + (s.by' - s.ay) * (s.by' - s.ay)) = 0 := h
+  rw [h'] at h2
+  have hx : (s.bx - s.ax) * (s.bx - s.ax) = 0 := by nlinarith [mul_self_nonneg (s.bx - s.ax), mul_self_nonneg (s.by' - s.ay)]
+  have hy : (s.by' - s.ay) * (s.by' - s.ay) = 0 := by nlinarith [mul_self_nonneg (s.bx - s.ax), mul_self_nonneg (s.by' - s.ay)]
+  exact ⟨by have := mul_self_eq_zero.mp hx; linarith, by have := mul_self_eq_zero.mp hy; linarith⟩
+
+theorem segPoint_zero (sqrt : K → K) (s : Seg K) : segPoint sqrt s 0 = (s.ax, s.ay) := by
+  simp only [segPoint]
+  split
+  · rfl
+  · simp
+
+theorem segPoint_degenerate (sqrt : K → K) (s : Seg K) (h : segLen sqrt s = 0) (off : K) :
+    segPoint sqrt s off = (s.ax, s.ay) := by
+  simp [segPoint, h]
+
+/-- The walk at arclength 0 of a connected polyline is its first vertex (however many repeated vertices
+it starts with). -/
+theorem walk_zero (sqrt : K → K) (hs : SqrtOK sqrt) (s : Seg K) (rest : List (Seg K)) (hc : Connected (s :: rest)) :
+    walk sqrt (s :: rest) 0 = (s.ax, s.ay) := by
+  induction rest generalizing s with
+  | nil => exact segPoint_zero sqrt s
+  | cons s' rest' ih =>
+    rw [walk_cons_cons]
+    by_cases hL : 0 < segLen sqrt s
+    · rw [if_pos hL, segPoint_zero]
+    · have h0 : segLen sqrt s = 0 := le_antisymm (not_lt.mp hL) (segLen_nonneg sqrt hs s)
+      rw [if_neg hL, h0, sub_zero, ih s' hc.2.2]
+      obtain ⟨e1, e2⟩ := segLen_eq_zero sqrt hs s h0
+      rw [← hc.1, ← hc.2.1, e1, e2]
+
+/-- **The lookup is the arclength walk also on polylines with repeated vertices**: connected polyline, any
+number of zero-length segments anywhere, every arclength `l ≥ acc` (in `Eval`: `acc = 0`, `l = t·length`,
+`t ≥ 0`). -/
+theorem evalFrom_eq_walk_connected (sqrt : K → K) (hs : SqrtOK sqrt) (segs : List (Seg K)) (hne : segs ≠ [])
+    (hc : Connected segs) (acc l : K) (hl : acc ≤ l) :
+    evalFrom sqrt acc segs l = walk sqrt segs (l - acc) := by
+  induction segs generalizing acc with
+  | nil => exact absurd rfl hne
+  | cons s rest ih =>
+    cases rest with
+    | nil => rw [evalFrom_single]; rfl
+    | cons s' rest' =>
+      have hL : 0 ≤ segLen sqrt s := segLen_nonneg sqrt hs s
+      rw [walk_cons_cons]
+      by_cases hin : l - acc < segLen sqrt s
+      · rw [if_pos hin, evalFrom_cons_in sqrt s s' rest' acc l hin]
       · rw [if_neg hin]
-        have hge : acc + L ≤ l := by linarith
-        have h : acc < l := by linarith
-        simp only [evalFrom] at ih'
-        rw [← hst] at ih'
-        rw [show l - acc - L = l - (acc + L) by ring, ← ih' ]
-        simp only [searchGE, if_pos h, List.length_cons]
-        set j := searchGE l starts' with hj
-        have hjle : j ≤ starts'.length := searchGE_le_length l starts'
-        by_cases hjn : j = rest'.length + 1
-        · -- the search ran off the end: the last segment
-          have c1 : (j + 1 = rest'.length + 1 + 1 ∨ 0 < j + 1 ∧ l < (acc :: starts').getD (j + 1) ((0 : Nat) : K)) :=
-            Or.inl (by omega)
-          have c2 : (j = rest'.length + 1 ∨ 0 < j ∧ l < starts'.getD j ((0 : Nat) : K)) := Or.inl hjn
-          rw [if_pos c1, if_pos c2]
-          have : j + 1 - 1 = (j - 1) + 1 := by omega
-          rw [this, List.getD_cons_succ, List.getD_cons_succ]
-        · by_cases hlj : l < starts'.getD j ((0 : Nat) : K)
-          · have hj0 : 0 < j := by
-              rcases Nat.eq_zero_or_pos j with h0 | h0
-              · rw [h0, hhead] at hlj; linarith
-              · exact h0
-            have c1 : (j + 1 = rest'.length + 1 + 1 ∨ 0 < j + 1 ∧ l < (acc :: starts').getD (j + 1) ((0 : Nat) : K)) :=
-              Or.inr ⟨by omega, by rw [List.getD_cons_succ]; exact hlj⟩
-            have c2 : (j = rest'.length + 1 ∨ 0 < j ∧ l < starts'.getD j ((0 : Nat) : K)) := Or.inr ⟨hj0, hlj⟩
-            rw [if_pos c1, if_pos c2]
-            have : j + 1 - 1 = (j - 1) + 1 := by omega
-            rw [this, List.getD_cons_succ, List.getD_cons_succ]
-          · have c1 : ¬ (j + 1 = rest'.length + 1 + 1 ∨ 0 < j + 1 ∧ l < (acc :: starts').getD (j + 1) ((0 : Nat) : K)) := by
-              rintro (h1 | ⟨_, h2⟩)
-              · omega
-              · rw [List.getD_cons_succ] at h2; exact hlj h2
-            have c2 : ¬ (j = rest'.length + 1 ∨ 0 < j ∧ l < starts'.getD j ((0 : Nat) : K)) := by
-              rintro (h1 | ⟨_, h2⟩)
-              · exact hjn h1
-              · exact hlj h2
-            rw [if_neg c1, if_neg c2, List.getD_cons_succ, List.getD_cons_succ]
+        by_cases h : acc < l
+        · rw [evalFrom_cons_step sqrt s s' rest' acc l h (by linarith),
+            ih (by simp) hc.2.2 (acc + segLen sqrt s) (by linarith)]
+          congr 1; ring
+        · -- `l = acc` and the first segment has length zero: the code answers its vertex, the walk the
+          -- first vertex of what follows, which is the same point
+          have hla : l = acc := le_antisymm (not_lt.mp h) hl
+          have h0 : segLen sqrt s = 0 := by
+            apply le_antisymm _ hL
+            have := not_lt.mp hin
+            linarith
+          rw [evalFrom_at_start sqrt s _ acc l h, segPoint_degenerate sqrt s h0, hla, sub_self, h0, sub_zero,
+            walk_zero sqrt hs s' rest' hc.2.2]
+          obtain ⟨e1, e2⟩ := segLen_eq_zero sqrt hs s h0
+          rw [← hc.1, ← hc.2.1, e1, e2]
+
+omit [LinearOrder K] [IsStrictOrderedRing K] in
+theorem cumulative_total (acc : K) (ls : List K) : (cumulative acc ls).2 = acc + ls.sum := by
+  induction ls generalizing acc with
+  | nil => simp [cumulative]
+  | cons l ls ih => simp only [cumulative, ih, List.sum_cons]; ring
+
+/-- The segments of positive length, in order: the polyline with its repeated vertices removed. -/
+def properSegs (sqrt : K → K) (segs : List (Seg K)) : List (Seg K) :=
+  segs.filter fun s => decide (0 < segLen sqrt s)
+
+theorem walk_cons_in (sqrt : K → K) (s : Seg K) (rest : List (Seg K)) (l : K) (h : l < segLen sqrt s) :
+    walk sqrt (s :: rest) l = segPoint sqrt s l := by
+  cases rest with
+  | nil => rfl
+  | cons s' r => rw [walk_cons_cons, if_pos h]
+
+theorem walk_cons_out (sqrt : K → K) (s : Seg K) (rest : List (Seg K)) (l : K) (h : ¬ l < segLen sqrt s)
+    (hne : rest ≠ []) : walk sqrt (s :: rest) l = walk sqrt rest (l - segLen sqrt s) := by
+  cases rest with
+  | nil => exact absurd rfl hne
+  | cons s' r => rw [walk_cons_cons, if_neg h]
+
+theorem sum_eq_zero_of_properSegs_nil (sqrt : K → K) (hs : SqrtOK sqrt) (segs : List (Seg K))
+    (h : properSegs sqrt segs = []) : (segs.map (segLen sqrt)).sum = 0 := by
+  induction segs with
+  | nil => simp
+  | cons s rest ih =>
+    simp only [properSegs, List.filter_cons] at h
+    by_cases hL : 0 < segLen sqrt s
+    · simp [hL] at h
+    · simp only [hL, decide_false] at h
+      have h0 : segLen sqrt s = 0 := le_antisymm (not_lt.mp hL) (segLen_nonneg sqrt hs s)
+      simp only [List.map_cons, List.sum_cons, h0, zero_add]
+      exact ih h
+
+/-- **Repeated vertices take up no part of the curve**: at every arclength `0 ≤ l <` total length the walk
+along the polyline is the walk along the polyline with the zero-length segments removed. -/
+theorem walk_properSegs (sqrt : K → K) (hs : SqrtOK sqrt) (segs : List (Seg K)) (l : K) (h0 : 0 ≤ l)
+    (h1 : l < (segs.map (segLen sqrt)).sum) :
+    walk sqrt segs l = walk sqrt (properSegs sqrt segs) l := by
+  induction segs generalizing l with
+  | nil => simp at h1; exact absurd h1 (not_lt.mpr h0)
+  | cons s rest ih =>
+    have hL : 0 ≤ segLen sqrt s := segLen_nonneg sqrt hs s
+    simp only [List.map_cons, List.sum_cons] at h1
+    by_cases hin : l < segLen sqrt s
+    · have hpos : 0 < segLen sqrt s := lt_of_le_of_lt h0 hin
+      have e : properSegs sqrt (s :: rest) = s :: properSegs sqrt rest := by
+        simp [properSegs, List.filter_cons, hpos]
+      rw [e, walk_cons_in sqrt s rest l hin, walk_cons_in sqrt s _ l hin]
+    · have hrest : 0 < (rest.map (segLen sqrt)).sum := by linarith [not_lt.mp hin]
+      have hne : rest ≠ [] := by
+        rintro rfl; simp at hrest
+      have hpne : properSegs sqrt rest ≠ [] := by
+        intro hnil
+        rw [sum_eq_zero_of_properSegs_nil sqrt hs rest hnil] at hrest
+        exact lt_irrefl _ hrest
+      rw [walk_cons_out sqrt s rest l hin hne, ih (l - segLen sqrt s) (by linarith [not_lt.mp hin]) (by linarith)]
+      by_cases hpos : 0 < segLen sqrt s
+      · have e : properSegs sqrt (s :: rest) = s :: properSegs sqrt rest := by
+          simp [properSegs, List.filter_cons, hpos]
+        rw [e, walk_cons_out sqrt s _ l hin hpne]
+      · have hz : segLen sqrt s = 0 := le_antisymm (not_lt.mp hpos) hL
+        have e : properSegs sqrt (s :: rest) = properSegs sqrt rest := by
+          simp [properSegs, List.filter_cons, hpos]
+        rw [e, hz, sub_zero]
+
+theorem sum_properSegs (sqrt : K → K) (hs : SqrtOK sqrt) (segs : List (Seg K)) :
+    ((properSegs sqrt segs).map (segLen sqrt)).sum = (segs.map (segLen sqrt)).sum := by
+  induction segs with
+  | nil => rfl
+  | cons s rest ih =>
+    by_cases hpos : 0 < segLen sqrt s
+    · have e : properSegs sqrt (s :: rest) = s :: properSegs sqrt rest := by simp [properSegs, hpos]
+      have ih' : ((properSegs sqrt rest).map (segLen sqrt)).sum = (rest.map (segLen sqrt)).sum := ih
+      rw [e, List.map_cons, List.sum_cons, ih', List.map_cons, List.sum_cons]
+    · have hz : segLen sqrt s = 0 := le_antisymm (not_lt.mp hpos) (segLen_nonneg sqrt hs s)
+      have e : properSegs sqrt (s :: rest) = properSegs sqrt rest := by simp [properSegs, hpos]
+      have ih' : ((properSegs sqrt rest).map (segLen sqrt)).sum = (rest.map (segLen sqrt)).sum := ih
+      rw [e, ih', List.map_cons, List.sum_cons, hz, zero_add]
+
+theorem properSegs_pos (sqrt : K → K) (segs : List (Seg K)) : ∀ s ∈ properSegs sqrt segs, 0 < segLen sqrt s := by
+  intro s hs
+  simp only [properSegs, List.mem_filter, decide_eq_true_eq] at hs
+  exact hs.2
 
 /-! ### bisectionSearch -/
 
